@@ -30,14 +30,20 @@ Definition oxr_close (tol : Qc) (a b : option xq) : bool :=
 Fixpoint bad_idx {A} (f : A -> bool) (l : list A) (i : nat) : list nat :=
   match l with [] => [] | x :: r => if f x then bad_idx f r (S i) else i :: bad_idx f r (S i) end.
 
-(** BB: (pgmL, first, gg, xg, returned L) *)
-Definition bb_case_ok (tol : Qc) (c : xq * bool * xq * xq * xq) : bool :=
-  let '(pgmL, first, gg, xg, out) := c in
-  xr_close tol (bb_update pgmL first gg xg) out.
+Definition onat_eqb (a b : option nat) : bool :=
+  match a, b with Some x, Some y => Nat.eqb x y | None, None => true | _, _ => false end.
 
-(** adaptive BB: (kappa, pgmL, first, memory, xx, xg, gg, returned L, new memory).
-    If the model's Lbb1/Lbb2 is within tol of kappa the selection is decided by rounding:
-    either candidate is accepted (the harness counts these; none are expected). *)
+(** BB, through [bb_step] with the update arguments numbered by the harness:
+    (pgmL, stored id before, id of the current argument, gg, xg, returned L, stored id after).
+    gg, xg are the inner products of the differences between the arguments with these two ids. *)
+Definition bb_case_ok (tol : Qc) (c : xq * option nat * nat * xq * xq * xq * option nat) : bool :=
+  let '(pgmL, mem, cur, gg, xg, out, mem') := c in
+  let '(L, m) := bb_step nat (fun _ _ => xg) (fun _ _ => gg) pgmL mem cur in
+  xr_close tol L out && onat_eqb m mem'.
+
+(** adaptive BB: (kappa, pgmL, stored id, memory, current id, xx, xg, gg, returned L, stored id
+    after, new memory).  If the model's Lbb1/Lbb2 is within tol of kappa the selection is decided
+    by rounding: either candidate is accepted (the harness counts these; none are expected). *)
 Definition abb_near_tie (tol kappa : Qc) (m : option xq * option xq) : bool :=
   match m with
   | (Some (Fin a), Some (Fin b)) =>
@@ -46,12 +52,14 @@ Definition abb_near_tie (tol kappa : Qc) (m : option xq * option xq) : bool :=
   end.
 
 Definition abb_case_ok (tol : Qc)
-  (c : Qc * xq * bool * (option xq * option xq) * xq * xq * xq * xq * (option xq * option xq)) : bool :=
-  let '(kappa, pgmL, first, m, xx, xg, gg, out, m') := c in
-  let '(L, mm) := abb_update kappa pgmL first m xx xg gg in
+  (c : Qc * xq * option nat * (option xq * option xq) * nat * xq * xq * xq * xq * option nat *
+       (option xq * option xq)) : bool :=
+  let '(kappa, pgmL, mem, m, cur, xx, xg, gg, out, mem', m') := c in
+  let '(L, (pm, mm)) := abb_step nat (fun _ _ => xx) (fun _ _ => xg) (fun _ _ => gg) kappa pgmL mem m cur in
+  onat_eqb pm mem' &&
   oxr_close tol (fst mm) (fst m') && oxr_close tol (snd mm) (snd m') &&
   (xr_close tol L out ||
-   (negb first && abb_near_tie tol kappa mm &&
+   (match mem with Some _ => true | None => false end && abb_near_tie tol kappa mm &&
     (oxr_close tol (fst mm) (Some out) || oxr_close tol (snd mm) (Some out)))).
 
 (** recorded trials of a line search: (L_j, f(z_j), fquad(z_j)) *)
